@@ -192,6 +192,85 @@ def run(ctx):
                     "the bucket of a value it does not have" % short_id(f.id), where=f.loc())
     ctx.floor("R5", nb, 3, "functions updating property values and property index")
 
+    # ---- R7 double-checked creation: a function that looks a key up under a READ guard of X, and on a miss takes a
+    # WRITE guard of X to add it, must look the key up again through the write guard (or test the result of the add):
+    # between the two guards another thread may have added the same key.
+    n7 = 0
+    for f in P.fns.values():
+        if f.kind == "closure" or f.krate not in ("grafeo_core", "grafeo_engine", "grafeo_common", "grafeo_adapters"):
+            continue
+        acq = acquisitions(f)
+        cells_rw = {}
+        for (ab, mode, cell, guard, ln) in acq:
+            if cell is not None:
+                cells_rw.setdefault(cell, set()).add(mode)
+        both = [c for c, m in cells_rw.items() if m == {"R", "W"}]
+        if not both:
+            continue
+        fx = None
+        for cell in both:
+            tagc = "cell:%s.%s" % (cell[0].split("::")[-1], cell[1])
+            wacq = [a for a in acq if a[2] == cell and a[1] == "W"]
+            racq = [a for a in acq if a[2] == cell and a[1] == "R"]
+            # the read acquisition must come first (lookup), the write later
+            if not any(w[0] in f.reachable_blocks(r[0]) for r in racq for w in wacq):
+                continue
+            fx = fx or FlowCx(P, f)
+            for bi, t in f.calls():
+                c = callee_name(t)
+                last = c.split("::")[-1]
+                if last not in ("insert", "push", "entry") or not t["args"]:
+                    continue
+                rt = fx.tags(t["args"][0])
+                if tagc not in rt or "call:RwLock::write" not in rt:
+                    continue
+                # only creations of a fresh identifier matter: the value added is derived from a container length or a
+                # counter (a cache fill or a set insert whose own result is tested is idempotent)
+                vt = set()
+                for a_ in t["args"][1:]:
+                    vt |= fx.tags(a_)
+                fresh = any(y.startswith("call:") and y.split("::")[-1] in ("len", "fetch_add") for y in vt)
+                if not fresh:
+                    continue
+                # ... and the same key must have been looked up under the read guard
+                keyt = fx.tags(t["args"][1]) if len(t["args"]) > 1 else set()
+                looked = False
+                for b2, t2 in f.calls():
+                    if callee_name(t2).split("::")[-1] in ("get", "contains_key", "contains") and len(t2["args"]) > 1:
+                        r2 = fx.tags(t2["args"][0])
+                        # the receiver must be the guarded container itself, not something reached through it
+                        rty = f.types[t2["aty"][0]].lstrip("&").replace("mut ", "").strip()
+                        fty = ""
+                        for v_ in P.adts.get(cell[0], {"variants": []})["variants"]:
+                            for fl in v_["fields"]:
+                                if fl[0] == cell[1]:
+                                    fty = fl[1]
+                        if rty.split("<")[0] not in fty or (rty not in fty and rty.replace(", alloc::alloc::Global", "") not in fty):
+                            continue
+                        if tagc in r2 and "call:RwLock::read" in r2:
+                            k2 = fx.tags(t2["args"][1])
+                            if {y for y in k2 if y.startswith("param:") and y != "param:1"} & {y for y in keyt if y.startswith("param:") and y != "param:1"}:
+                                looked = True
+                if not looked:
+                    continue
+                n7 += 1
+                facts = fx.facts_at(bi)
+                rechecked = False
+                for x in facts:
+                    argsets = []
+                    if x[0] == "variant" and x[2] in ("None", "Some"):
+                        argsets = [x[3]]
+                    elif x[0] == "call":
+                        argsets = x[3][:1]
+                    for a_ in argsets:
+                        if tagc in a_ and "call:RwLock::write" in a_ and any(y.startswith("call:") and y.split("::")[-1] in ("get", "contains", "contains_key", "insert", "get_mut") for y in a_):
+                            rechecked = True
+                ctx.ob("R7", "%s#%s" % (short_id(f.id), cell[1]), rechecked,
+                       what="%s looks a key up in %s under a read guard and, on a miss, adds it under a write guard without looking it "
+                            "up again: two threads that miss together both add it (duplicate ids / entries; the first creator's "
+                            "entries are filed under an orphaned id)" % (short_id(f.id), cn(cell)), where=f.loc(t["line"]))
+    ctx.floor("R7", n7, 2, "get-or-create sites (read lookup, then write add)")
+
     # ---- R6 accounting symmetry
     rel = P.method("BufferManager", "GrantReleaser", "release")
     Wa = {a.cell for g in P.family(tr) for a in E.own_acc(g) if E.is_write(a) and a.how.startswith("atomic:") and a.cell[1] in ("allocated", "region_allocated")}
